@@ -2,7 +2,9 @@
    [AResumeCancelled]): what the waiter that gives up does to the lock table and the queue.
    A second, independent invariant [e4_QInv] (lock-queue hygiene: the queue has no duplicates, every queued tid is a
    thread parked at [PEnqueued] that has NOT been granted, a thread that has not reached the locker has no grant) is
-   proved for every reachable state; [e4_Inv] (E4Inv.v) does not constrain the queue and is left as it was. *)
+   proved for every reachable state; [e4_Inv] (E4Inv.v) does not constrain the queue and is left as it was.
+   [e4_QInv] is also preserved by a transient store read failure ([AResumeReadFail], [e4_q_resume_read_fail]); the
+   theorems about the locks of the request whose read fails are in E4ReadFail.v. *)
 From FL Require Import Engine.Model Engine.Spec Engine.E4Base Engine.E4Inv Engine.E4Steps Engine.E4Resume Engine.E4Cor.
 From Coq Require Import Lia.
 Open Scope Z_scope.
@@ -308,6 +310,48 @@ Proof.
       * rewrite e4_get_set_other in Hx; eauto.
 Qed.
 
+(* a transient store read failure: before the locker the thread (not queued: it is not at [PEnqueued]) finishes or,
+   for SaveMeta, moves on, and the queue is left alone; at [PLocked] it releases (FIFO pass) and finishes, exactly
+   as the granted waiter that gives up *)
+Lemma e4_q_resume_read_fail s t s' : e4_QInv s -> resume_read_fail s t = Some s' -> e4_QInv s'.
+Proof.
+  intros HQ H. unfold resume_read_fail in H.
+  destruct (get_thread (threads s) t) as [th|] eqn:Hth; [|discriminate].
+  destruct (negb (Nat.eqb (t_gen th) (gen s))); [discriminate|].
+  assert (Hni0 : t_pc th <> PEnqueued -> ~ In t (v_queue s)) by (intros X; eapply e4_q_notin; eauto).
+  cbv zeta in H. revert H.
+  destruct (t_pc th) eqn:Hpc; intros H; cbv beta iota in H; try discriminate;
+    assert (Hni : ~ In t (v_queue s)) by (apply Hni0; discriminate).
+  - (* PRevTaken *) injection H as <-. e4_q_own t HQ Hth Hpc Hni.
+  - (* PIkTaken *) injection H as <-. e4_q_own t HQ Hth Hpc Hni.
+  - (* PIkLookup *)
+    destruct hit as [e|]; [discriminate|].
+    destruct (rq_kind (t_req th)); try discriminate.
+    + destruct (N.eqb (rq_ref (t_req th)) 0); [|discriminate]. injection H as <-. e4_q_own t HQ Hth Hpc Hni.
+    + destruct (rq_target_tx (t_req th)); [|discriminate]. injection H as <-. e4_q_own t HQ Hth Hpc Hni.
+    + destruct (rq_target_tx (t_req th)); [|discriminate]. injection H as <-. e4_q_own t HQ Hth Hpc Hni.
+  - (* PRefTaken *) injection H as <-. e4_q_own t HQ Hth Hpc Hni.
+  - (* PRefLookup *)
+    destruct hit; [discriminate|].
+    destruct (rq_kind (t_req th)); try discriminate. injection H as <-. e4_q_own t HQ Hth Hpc Hni.
+  - (* PLocked: release + FIFO pass, then the thread finishes *)
+    destruct (needs_balance th); [|discriminate]. injection H as <-.
+    set (s1 := to_state (gen s) (unlock t (of_state s))).
+    assert (HQ1 : e4_QInv s1).
+    { unfold s1, unlock. cbn [of_state u_queue u_threads u_locks u_persisted u_last u_lasttx u_pending
+                               u_batch u_iks u_refs u_revs u_cs u_uid u_published].
+      destruct (recheck (v_queue s) (threads s) (filter (fun h => negb (Nat.eqb (fst (fst h)) t)) (v_locks s)))
+        as [[q' ths'] locks'] eqn:Hr.
+      eapply (e4_q_unlock s _ _ q' ths' locks' HQ Hr); reflexivity. }
+    assert (Hni1 : ~ In t (v_queue s1)).
+    { unfold s1, unlock. cbn [of_state u_queue u_threads u_locks u_persisted u_last u_lasttx u_pending
+                               u_batch u_iks u_refs u_revs u_cs u_uid u_published].
+      destruct (recheck (v_queue s) (threads s) (filter (fun h => negb (Nat.eqb (fst (fst h)) t)) (v_locks s)))
+        as [[q' ths'] locks'] eqn:Hr.
+      destruct (e4_recheck_q _ _ _ _ _ _ Hr (q_nodup _ HQ)) as (_ & I & _). cbn. intros X. apply Hni, I, X. }
+    eapply (e4_q_upd s1 _ t); [exact HQ1 | reflexivity | reflexivity | intros X; exfalso; exact (Hni1 X) | discriminate].
+Qed.
+
 Lemma e4_q_step s a s' : e4_QInv s -> step s a = Some s' -> e4_QInv s'.
 Proof.
   intros HQ H. destruct a; simpl in H.
@@ -319,6 +363,7 @@ Proof.
   - injection H as <-. apply e4_q_crash.
   - eapply e4_q_cancel; eauto.
   - eapply e4_q_resume_cancelled; eauto.
+  - eapply e4_q_resume_read_fail; eauto.
 Qed.
 
 Lemma e4_q_init : e4_QInv init.
